@@ -1176,6 +1176,163 @@ end GS.C06
 namespace GS.C06
 open GS.Loader GS.Requestor GS.PauseResume
 
+/-! ### the block count is the number of block-hook reports -/
+
+/-- number of loads answered with data that the events report -/
+def cnt (evs : List Ev) : Nat := (PauseResume.blocksOf evs).length
+
+theorem cnt_append (a b : List Ev) : cnt (a ++ b) = cnt a + cnt b := by
+  unfold cnt; rw [blocksOf_append, List.length_append]
+
+theorem cnt_writeEvs (r : Result) : cnt (writeEvs r) = 0 := by
+  unfold writeEvs; split <;> rfl
+
+theorem cnt_finish (s : Requestor.State) : cnt (finish s).2 = 0 := by
+  unfold finish; dsimp only; split <;> rfl
+
+theorem cnt_failWith (s : Requestor.State) (e : RErr) : cnt (failWith s e).2 = 0 := by
+  unfold failWith
+  dsimp only
+  rw [cnt_append, cnt_finish]
+  cases e <;> rfl
+
+theorem handle_count (s : Requestor.State) (n : LNode) (rest : LT) (res : Result) :
+    cnt (handle s n rest res).2.1 + s.nBlocks = (handle s n rest res).1.nBlocks := by
+  unfold handle
+  cases res.err with
+  | none =>
+    simp only [cnt_append, cnt_writeEvs]
+    show 0 + 1 + s.nBlocks = s.nBlocks + 1
+    omega
+  | some e =>
+    simp only
+    split
+    · simp only [cnt_append, cnt_writeEvs, cnt_finish, finish_nBlocks]
+      omega
+    · cases e with
+      | missing c p =>
+        simp only
+        split
+        · simp only [cnt_append, cnt_writeEvs, cnt_failWith, failWith_nBlocks]
+          show 0 + 0 + 0 + s.nBlocks = s.nBlocks
+          omega
+        · simp only [cnt_append, cnt_writeEvs]
+          show 0 + 0 + s.nBlocks = s.nBlocks
+          omega
+      | incorrect a b q =>
+        simp only [cnt_append, cnt_writeEvs, cnt_failWith, failWith_nBlocks]
+        show 0 + 0 + 0 + s.nBlocks = s.nBlocks
+        omega
+      | extraData =>
+        simp only [cnt_append, cnt_writeEvs, cnt_failWith, failWith_nBlocks]
+        show 0 + 0 + 0 + s.nBlocks = s.nBlocks
+        omega
+      | nothingLeft =>
+        simp only [cnt_append, cnt_writeEvs, cnt_failWith, failWith_nBlocks]
+        show 0 + 0 + 0 + s.nBlocks = s.nBlocks
+        omega
+      | retryNone =>
+        simp only [cnt_append, cnt_writeEvs, cnt_failWith, failWith_nBlocks]
+        show 0 + 0 + 0 + s.nBlocks = s.nBlocks
+        omega
+
+theorem loadNode_count (r : Requestor.State) (n : LNode) : cnt (loadNode r n).2.1 = 0 := by
+  unfold loadNode
+  split
+  · rfl
+  · split
+    · split <;> rfl
+    · rfl
+
+theorem drive_count : ∀ (fuel : Nat) (r : Requestor.State), cnt (drive fuel r).2 + r.nBlocks = (drive fuel r).1.nBlocks := by
+  intro fuel
+  induction fuel with
+  | zero => intro r; show 0 + r.nBlocks = r.nBlocks; omega
+  | succ k ih =>
+    intro r
+    rw [drive_succ]
+    split
+    · show 0 + r.nBlocks = r.nBlocks; omega
+    · cases r.todo with
+      | nil => simp only; rw [cnt_finish, finish_nBlocks]; omega
+      | cons n rest =>
+        simp only
+        have h1 := loadNode_nBlocks r n
+        have h0 := loadNode_count r n
+        generalize loadNode r n = ln at h1 h0
+        obtain ⟨r1, ev1, ores⟩ := ln
+        simp only at h1 h0
+        cases ores with
+        | none => simp only; rw [h0, h1]; omega
+        | some res =>
+          simp only
+          have h2 := handle_count r1 n rest res
+          generalize handle r1 n rest res = hd at h2
+          obtain ⟨r2, evs, go⟩ := hd
+          simp only at h2
+          cases go with
+          | true =>
+            simp only
+            have := ih r2
+            rw [cnt_append, cnt_append, h0]
+            omega
+          | false => simp only; rw [cnt_append, h0]; omega
+
+theorem resume_count (r : Requestor.State) : cnt (Requestor.resume r).2 + r.nBlocks = (Requestor.resume r).1.nBlocks := by
+  obtain ⟨L, todo, ph, rs, nb, us, cc, te⟩ := r
+  unfold Requestor.resume
+  simp only
+  cases Loader.wake L with
+  | mk l1 ores =>
+    cases ores with
+    | none => show 0 + nb = nb; omega
+    | some res =>
+      simp only
+      cases todo with
+      | nil => show 0 + nb = nb; omega
+      | cons n rest =>
+        simp only
+        have h2 := handle_count ⟨l1, n :: rest, ph, rs, nb, us, cc, te⟩ n rest res
+        generalize handle ⟨l1, n :: rest, ph, rs, nb, us, cc, te⟩ n rest res = hd at h2
+        obtain ⟨r2, evs, go⟩ := hd
+        simp only at h2
+        cases go with
+        | true =>
+          simp only
+          have := drive_count (fuelFor r2) r2
+          rw [cnt_append]
+          omega
+        | false => exact h2
+
+theorem message_count (r : Requestor.State) (f k : Bool) (st : Nat) (md : List (Cid × Action)) (bl : List (Cid × Blk)) :
+    cnt (message r f k st md bl).2 + r.nBlocks = (message r f k st md bl).1.nBlocks := by
+  unfold message
+  split
+  · show 0 + r.nBlocks = r.nBlocks; omega
+  · have := resume_count (applyStatus { r with L := Loader.ingest r.L md bl } st)
+    rw [applyStatus_nBlocks] at this
+    exact this
+
+theorem feed_count : ∀ (msgs : List Requestor.Msg) (r : Requestor.State),
+    cnt (feed r msgs).2 + r.nBlocks = (feed r msgs).1.nBlocks := by
+  intro msgs
+  induction msgs with
+  | nil => intro r; show 0 + r.nBlocks = r.nBlocks; omega
+  | cons m rest ih =>
+    intro r
+    simp only [feed]
+    have h1 := message_count r m.fromPeer0 m.known m.status m.md m.blocks
+    have h2 := ih (message r m.fromPeer0 m.known m.status m.md m.blocks).1
+    rw [cnt_append]
+    omega
+
+theorem request_count (st : List (Cid × Blk)) (lt : LT) (u : Nat) :
+    cnt (Requestor.request { L := { store := st } } lt u).2 = (Requestor.request { L := { store := st } } lt u).1.nBlocks := by
+  unfold Requestor.request
+  have := drive_count (fuelFor { ({ L := { store := st } } : Requestor.State) with todo := lt, phase := .running, userSkip := u })
+    { ({ L := { store := st } } : Requestor.State) with todo := lt, phase := .running, userSkip := u }
+  simpa using this
+
 /-- `PQ` + the user's skip value -/
 def PQU (lt : LT) (st0 : List (Cid × Blk)) (u : Nat) (r : Requestor.State) : Prop := PQ lt st0 r ∧ r.userSkip = u
 
@@ -1202,24 +1359,28 @@ theorem PQU_wake (lt : LT) (st0 : List (Cid × Blk)) (u : Nat) : PresWakeAt (PQU
     exchange stands in `stopForPause` of a plain requestor state `r'` with `k` blocks loaded that
     satisfies the reachability invariant; its last report is the cancel. -/
 theorem pause_point (st : List (Cid × Blk)) (lt : LT) (u k : Nat) (m1 : List Requestor.Msg) (M : Requestor.Msg)
+    (F : Requestor.State → Prop) (hF1 : PresAt F) (hF2 : PresWakeAt F)
+    (hF : F (applyStatus { (Requestor.exchange st lt u m1).1 with
+      L := Loader.ingest (Requestor.exchange st lt u m1).1.L M.md M.blocks } M.status))
     (hpre : (Requestor.exchange st lt u m1).1.nBlocks < k)
     (hctx : (Requestor.exchange st lt u m1).1.ctxCancelled = false)
     (hfail : isFailure M.status = false)
     (hpaused : (PauseResume.exchange st lt u [k] (m1.map toOp ++ [toOp M])).1.paused = true) :
     ∃ r' e0, PauseResume.exchange st lt u [k] (m1.map toOp ++ [toOp M]) =
         ((stopForPause (hooked [k] r')).1, e0 ++ [Ev.sentCancel]) ∧
-      r'.nBlocks = k ∧ PQU lt st u r' := by
+      r'.nBlocks = k ∧ PQU lt st u r' ∧ cnt e0 = k ∧ F r' := by
   have hex : ∀ ms, Requestor.exchange st lt u ms =
       ((feed (Requestor.request { L := { store := st } } lt u).1 ms).1,
         (Requestor.request { L := { store := st } } lt u).2 ++ (feed (Requestor.request { L := { store := st } } lt u).1 ms).2) := by
     intro ms; rfl
-  rw [hex] at hpre hctx
-  simp only at hpre hctx
+  rw [hex] at hpre hctx hF
+  simp only at hpre hctx hF
   have hQ0 := request_Q st lt u
   have hU0 := request_us st lt u
-  generalize hq : Requestor.request { L := { store := st } } lt u = q at hpre hctx hQ0 hU0
+  have hC0 := request_count st lt u
+  generalize hq : Requestor.request { L := { store := st } } lt u = q at hpre hctx hQ0 hU0 hC0 hF
   obtain ⟨s0, ev0⟩ := q
-  simp only at hpre hctx hQ0 hU0
+  simp only at hpre hctx hQ0 hU0 hC0 hF
   have h0 : s0.nBlocks < k := Nat.lt_of_le_of_lt (feed_nBlocks m1 s0) hpre
   have hreq := request_notyet k st lt u (by rw [hq]; exact h0)
   rw [hq] at hreq
@@ -1254,15 +1415,27 @@ theorem pause_point (st : List (Cid × Blk)) (lt : LT) (u k : Nat) (m1 : List Re
       · rw [applyStatus_ctx _ _ hfail]; exact hctx
       · rw [hfr.2.2.1]; exact hrun1
       · rw [hfr.2.2.2.2.2.2.2.2]; exact hU1
-    have hsplit := deliver_splitAt k (PQU lt st u) (PQU_pres lt st u) (PQU_wake lt st u) (feed s0 m1).1
-      M.fromPeer0 M.known M.status M.md M.blocks hpre hp
-    rcases hsplit with h | ⟨r', e1, f', hk, _, hP', hX, _⟩
+    have hsplit := deliver_splitAt k (fun r => PQU lt st u r ∧ F r)
+      (fun r n rest r1 ev1 res r2 evs hp0 htd hln hh =>
+        ⟨PQU_pres lt st u r n rest r1 ev1 res r2 evs hp0.1 htd hln hh, hF1 r n rest r1 ev1 res r2 evs hp0.2 htd hln hh⟩)
+      (fun r l1 res n rest r2 evs hp0 htd hw hh =>
+        ⟨PQU_wake lt st u r l1 res n rest r2 evs hp0.1 htd hw hh, hF2 r l1 res n rest r2 evs hp0.2 htd hw hh⟩)
+      (feed s0 m1).1 M.fromPeer0 M.known M.status M.md M.blocks hpre ⟨hp, hF⟩
+    rcases hsplit with h | ⟨r', e1, f', hk, _, hP', hX, hY⟩
     · exfalso
       rw [h] at hpaused
       simp [hooked] at hpaused
-    · refine ⟨r', ev0 ++ (feed s0 m1).2 ++ e1, ?_, hk, hP'⟩
-      rw [hX]
-      simp
+    · refine ⟨r', ev0 ++ (feed s0 m1).2 ++ e1, ?_, hk, hP'.1, ?_, hP'.2⟩
+      · rw [hX]
+        simp
+      · have c1 := feed_count m1 s0
+        have c2 := message_count (feed s0 m1).1 M.fromPeer0 M.known M.status M.md M.blocks
+        rw [hY] at c2
+        simp only at c2
+        have c3 := drive_count f' r'
+        rw [cnt_append] at c2
+        rw [cnt_append, cnt_append]
+        omega
 
 /-- **`Unpause` up to the re-opening.**  From the pause point `r'` (every load so far delivered:
     `loaded` has `k` nodes), `Unpause` either sends no request at all, or ends — after delivering
@@ -1293,5 +1466,351 @@ theorem unpause_reopen (lt : LT) (st0 : List (Cid × Blk)) (u k : Nat) (r' : Req
     rw [h1]
     have : (unsent { r' with L := Loader.setOnline r'.L false }).userSkip = u := hus
     rw [this]
+
+end GS.C06
+
+namespace GS.Loader
+open GS.Requestor (LNode LT)
+
+/-! ### no entry of any response so far was "not followed": the path tracker holds no value -/
+
+/-- the path tracker is empty and every queued (or re-queueable) entry is one the responder followed -/
+structure Fol (l : State) : Prop where
+  unf : l.unfollowed = []
+  q : ∀ it ∈ l.rq.q, it.action.didFollow = true
+  last : ∀ it, l.rq.last = some it → it.action.didFollow = true
+
+theorem recordRemoteAttempt_fol (s : State) (p : Path) (a : Action) (h : a.didFollow = true) :
+    recordRemoteAttempt s p a = s := by
+  unfold recordRemoteAttempt; simp [h]
+
+theorem Fol.consume {s : State} (h : Fol s) (ver : Option Ver) : Fol { s with rq := s.rq.consume, ver := ver } := by
+  unfold RQ.consume
+  cases hq : s.rq.q with
+  | nil => exact ⟨h.unf, by simp [hq], by simpa [hq] using h.last⟩
+  | cons x rest =>
+    refine ⟨h.unf, ?_, ?_⟩
+    · intro it hit; simp only at hit; exact h.q it (by rw [hq]; exact List.mem_cons_of_mem _ hit)
+    · intro it hit
+      simp only [Option.some.injEq] at hit
+      subst hit
+      exact h.q x (by rw [hq]; exact List.mem_cons_self ..)
+
+theorem waitRemote_Fol (fuel : Nat) (s : State) (h : Fol s) : Fol (waitRemote fuel s).1 := by
+  induction fuel generalizing s with
+  | zero => exact h
+  | succ n ih =>
+    unfold waitRemote
+    dsimp only
+    split
+    · rename_i head tl hq
+      split
+      · exact ⟨h.unf, h.q, h.last⟩
+      · split
+        · have := h.consume s.ver
+          exact ⟨this.unf, this.q, this.last⟩
+        · rename_i v' _
+          have hf : head.action.didFollow = true := h.q head (by rw [hq]; exact List.mem_cons_self ..)
+          rw [recordRemoteAttempt_fol _ _ _ hf]
+          exact ih _ (h.consume (some v'))
+    · split <;> exact h
+
+theorem stillOnUnfollowed_fol (s : State) (p : Path) (h : s.unfollowed = []) : stillOnUnfollowed s p = (s, false) := by
+  unfold stillOnUnfollowed; simp [h]
+
+theorem run_Fol (s : State) (p : Path) (c : Cid) (h : Fol s) : Fol (run s p c).1 := by
+  have hw := waitRemote_Fol (s.rq.q.length + 1) s h
+  unfold run
+  dsimp only
+  generalize waitRemote (s.rq.q.length + 1) s = w at hw
+  obtain ⟨s1, wt⟩ := w
+  simp only at hw
+  cases wt with
+  | blocked => exact ⟨hw.unf, hw.q, hw.last⟩
+  | err e => exact ⟨hw.unf, hw.q, hw.last⟩
+  | offline => exact ⟨hw.unf, hw.q, hw.last⟩
+  | remote =>
+    dsimp only
+    rw [stillOnUnfollowed_fol s1 p hw.unf]
+    dsimp only
+    simp only [Bool.false_eq_true, if_false]
+    split
+    · exact ⟨hw.unf, hw.q, hw.last⟩
+    · rename_i head tl hq
+      have hc := hw.consume s1.ver
+      have hf : head.action.didFollow = true := hw.q head (by rw [hq]; exact List.mem_cons_self ..)
+      split
+      · exact ⟨hc.unf, hc.q, hc.last⟩
+      · rw [recordRemoteAttempt_fol _ _ _ hf]
+        split
+        · exact ⟨hc.unf, hc.q, hc.last⟩
+        · exact ⟨hc.unf, hc.q, hc.last⟩
+
+theorem load_Fol (s : State) (p : Path) (c : Cid) (h : Fol s) : Fol (load s p c).1 := by
+  rw [load_eq]
+  apply run_Fol
+  unfold prologue
+  split
+  · exact ⟨h.unf, h.q, h.last⟩
+  · exact h
+
+theorem retry_Fol (s : State) (h : Fol s) : Fol (retry s).1 := by
+  unfold retry
+  split
+  · exact h
+  · rename_i a _
+    dsimp only
+    apply load_Fol
+    split
+    · -- retryLast
+      unfold RQ.retryLast
+      cases hl : s.rq.last with
+      | none => exact ⟨h.unf, by simpa [hl] using h.q, by simp [hl]⟩
+      | some x =>
+        have hx := h.last x hl
+        simp only
+        split
+        · refine ⟨h.unf, ?_, by simp⟩
+          intro it hit
+          simp only [List.mem_cons] at hit
+          rcases hit with rfl | hit
+          · exact hx
+          · exact h.q it hit
+        · split
+          · exact ⟨h.unf, by intro it hit; simp only [List.mem_singleton] at hit; subst hit; exact hx, by simp⟩
+          · exact ⟨h.unf, by intro it hit; simp only [List.mem_singleton] at hit; subst hit; exact hx, by simp⟩
+    · exact ⟨h.unf, h.q, h.last⟩
+
+theorem setOnline_Fol (s : State) (b : Bool) (h : Fol s) : Fol (setOnline s b) := by
+  unfold setOnline
+  dsimp only
+  split
+  · exact ⟨h.unf, by simp [RQ.clear], by simp [RQ.clear]⟩
+  · exact ⟨h.unf, h.q, h.last⟩
+
+theorem cleanup_Fol (s : State) (h : Fol s) : Fol (cleanup s) :=
+  ⟨h.unf, by simp [cleanup, RQ.clear], by simp [cleanup, RQ.clear]⟩
+
+theorem buildItems_go_action (bl : List (Cid × Blk)) : ∀ (md : List (Cid × Action)) (dups : List Cid),
+    ∀ it ∈ buildItems.go bl md dups, ∃ e ∈ md, it.action = e.2
+  | [], _ => by intro it hit; simp [buildItems.go] at hit
+  | (l, a) :: rest, dups => by
+    intro it hit
+    unfold buildItems.go at hit
+    split at hit
+    · simp only [List.mem_cons] at hit
+      rcases hit with rfl | hit
+      · exact ⟨(l, a), by simp, rfl⟩
+      · obtain ⟨e, he, h⟩ := buildItems_go_action bl rest _ it hit
+        exact ⟨e, by simp [he], h⟩
+    · simp only [List.mem_cons] at hit
+      rcases hit with rfl | hit
+      · exact ⟨(l, a), by simp, rfl⟩
+      · obtain ⟨e, he, h⟩ := buildItems_go_action bl rest _ it hit
+        exact ⟨e, by simp [he], h⟩
+
+theorem push_Fol_q (rq : RQ) (it : Item) (hq : ∀ x ∈ rq.q, x.action.didFollow = true) (hit : it.action.didFollow = true) :
+    (∀ x ∈ (rq.push it).q, x.action.didFollow = true) ∧ (rq.push it).last = rq.last := by
+  unfold RQ.push
+  split
+  · exact ⟨by intro x hx; simp only [List.mem_singleton] at hx; subst hx; exact hit, rfl⟩
+  · split
+    · refine ⟨?_, rfl⟩
+      intro x hx
+      simp only [List.mem_append, List.mem_singleton] at hx
+      rcases hx with hx | rfl
+      · exact hq x hx
+      · exact hit
+    · exact ⟨hq, rfl⟩
+
+theorem queue_Fol_q : ∀ (items : List Item) (rq : RQ), (∀ x ∈ rq.q, x.action.didFollow = true) →
+    (∀ it ∈ items, it.action.didFollow = true) →
+    (∀ x ∈ (rq.queue items).q, x.action.didFollow = true) ∧ (rq.queue items).last = rq.last
+  | [], rq, hq, _ => ⟨hq, rfl⟩
+  | it :: rest, rq, hq, hi => by
+    have h1 := push_Fol_q rq it hq (hi it (by simp))
+    have h2 := queue_Fol_q rest (rq.push it) h1.1 (fun x hx => hi x (by simp [hx]))
+    unfold RQ.queue
+    simp only [List.foldl_cons]
+    exact ⟨h2.1, h2.2.trans h1.2⟩
+
+theorem ingest_Fol (s : State) (md : List (Cid × Action)) (bl : List (Cid × Blk)) (h : Fol s)
+    (hmd : ∀ e ∈ md, e.2.didFollow = true) : Fol (ingest s md bl) := by
+  unfold ingest
+  split
+  · exact h
+  · split
+    · exact h
+    · have hitems : ∀ it ∈ buildItems md bl, it.action.didFollow = true := by
+        intro it hit
+        obtain ⟨e, he, ha⟩ := buildItems_go_action bl md [] it hit
+        rw [ha]; exact hmd e he
+      have := queue_Fol_q (buildItems md bl) s.rq h.q hitems
+      exact ⟨h.unf, this.1, by intro it hl; simp only at hl; rw [this.2] at hl; exact h.last it hl⟩
+
+end GS.Loader
+
+namespace GS.C06
+open GS.Loader GS.Requestor GS.PauseResume
+
+theorem loadNode_Fol (r : Requestor.State) (n : LNode) (h : Fol r.L) : Fol (loadNode r n).1.L := by
+  have h1 := load_Fol r.L n.path n.cid h
+  unfold loadNode
+  generalize Loader.load r.L n.path n.cid = ld at h1
+  obtain ⟨l1, out⟩ := ld
+  simp only at h1
+  cases out with
+  | blocked => exact h1
+  | done res =>
+    dsimp only
+    split
+    · have h3 := retry_Fol _ (setOnline_Fol l1 true h1)
+      generalize Loader.retry (Loader.setOnline l1 true) = rt at h3
+      obtain ⟨l3, o3⟩ := rt
+      cases o3 <;> exact h3
+    · exact h1
+
+theorem handle_Fol (s : Requestor.State) (n : LNode) (rest : LT) (res : Result) (h : Fol s.L) :
+    Fol (handle s n rest res).1.L := by
+  have hfin : Fol (finish s).1.L := by rw [(finish_spec s).2.2.1]; exact cleanup_Fol _ h
+  have hfw : ∀ e, Fol (failWith s e).1.L := fun e => by
+    rw [(failWith_spec s e).2.2.1]; exact cleanup_Fol _ (setOnline_Fol _ _ h)
+  unfold handle
+  cases res.err with
+  | none => exact h
+  | some e =>
+    simp only
+    split
+    · exact hfin
+    · cases e with
+      | missing c p =>
+        simp only
+        split
+        · exact hfw .other
+        · exact h
+      | incorrect a b q => exact hfw (.load (.incorrect a b q))
+      | extraData => exact hfw (.load .extraData)
+      | nothingLeft => exact hfw (.load .nothingLeft)
+      | retryNone => exact hfw (.load .retryNone)
+
+theorem drive_Fol : ∀ (fuel : Nat) (r : Requestor.State), Fol r.L → Fol (drive fuel r).1.L := by
+  intro fuel
+  induction fuel with
+  | zero => intro r h; exact h
+  | succ k ih =>
+    intro r h
+    rw [drive_succ]
+    split
+    · exact h
+    · cases r.todo with
+      | nil => simp only; rw [(finish_spec r).2.2.1]; exact cleanup_Fol _ h
+      | cons n rest =>
+        simp only
+        have h1 := loadNode_Fol r n h
+        generalize loadNode r n = ln at h1
+        obtain ⟨r1, ev1, ores⟩ := ln
+        simp only at h1
+        cases ores with
+        | none => exact h1
+        | some res =>
+          simp only
+          have h2 := handle_Fol r1 n rest res h1
+          generalize handle r1 n rest res = hd at h2
+          obtain ⟨r2, evs, go⟩ := hd
+          simp only at h2
+          cases go with
+          | true => simp only; exact ih r2 h2
+          | false => exact h2
+
+theorem wake_Fol (l : Loader.State) (h : Fol l) : Fol (Loader.wake l).1 := by
+  unfold Loader.wake
+  split
+  · exact h
+  · rename_i p c _
+    have := run_Fol l p c h
+    split
+    · rename_i s' r heq; rw [heq] at this; exact this
+    · rename_i s' heq; rw [heq] at this; exact this
+
+theorem resume_Fol (r : Requestor.State) (h : Fol r.L) : Fol (Requestor.resume r).1.L := by
+  obtain ⟨L, todo, ph, rs, nb, us, cc, te⟩ := r
+  have hw := wake_Fol L h
+  unfold Requestor.resume
+  simp only
+  generalize Loader.wake L = wk at hw
+  obtain ⟨l1, ores⟩ := wk
+  simp only at hw
+  cases ores with
+  | none => exact hw
+  | some res =>
+    simp only
+    cases todo with
+    | nil => exact hw
+    | cons n rest =>
+      simp only
+      have h2 := handle_Fol ⟨l1, n :: rest, ph, rs, nb, us, cc, te⟩ n rest res hw
+      generalize handle ⟨l1, n :: rest, ph, rs, nb, us, cc, te⟩ n rest res = hd at h2
+      obtain ⟨r2, evs, go⟩ := hd
+      simp only at h2
+      cases go with
+      | true => simp only; exact drive_Fol _ r2 h2
+      | false => exact h2
+
+theorem ingestStatus_Fol (r : Requestor.State) (h : Fol r.L) (st : Nat) (md : List (Cid × Action)) (bl : List (Cid × Blk))
+    (hmd : ∀ e ∈ md, e.2.didFollow = true) :
+    Fol (applyStatus { r with L := Loader.ingest r.L md bl } st).L := by
+  have hi := ingest_Fol r.L md bl h hmd
+  rcases (applyStatus_spec { r with L := Loader.ingest r.L md bl } st).2 with hL | hL
+  · rw [hL]; exact hi
+  · rw [hL]; exact setOnline_Fol _ _ hi
+
+theorem message_Fol (r : Requestor.State) (h : Fol r.L) (f k : Bool) (st : Nat) (md : List (Cid × Action))
+    (bl : List (Cid × Blk)) (hmd : ∀ e ∈ md, e.2.didFollow = true) : Fol (message r f k st md bl).1.L := by
+  unfold message
+  split
+  · exact h
+  · exact resume_Fol _ (ingestStatus_Fol r h st md bl hmd)
+
+theorem feed_Fol : ∀ (msgs : List Requestor.Msg) (r : Requestor.State), Fol r.L →
+    (∀ m ∈ msgs, ∀ e ∈ m.md, e.2.didFollow = true) → Fol (feed r msgs).1.L := by
+  intro msgs
+  induction msgs with
+  | nil => intro r h _; exact h
+  | cons m rest ih =>
+    intro r h hm
+    simp only [feed]
+    exact ih _ (message_Fol r h _ _ _ _ _ (hm m (by simp))) (fun m' hm' => hm m' (by simp [hm']))
+
+theorem exchange_Fol (st : List (Cid × Blk)) (lt : LT) (u : Nat) (msgs : List Requestor.Msg)
+    (hm : ∀ m ∈ msgs, ∀ e ∈ m.md, e.2.didFollow = true) : Fol (Requestor.exchange st lt u msgs).1.L := by
+  have h0 : Fol (Requestor.request { L := { store := st } } lt u).1.L := by
+    unfold Requestor.request
+    exact drive_Fol _ _ ⟨rfl, fun it hit => (by cases hit), fun it hl => (by cases hl)⟩
+  exact feed_Fol msgs _ h0 hm
+
+theorem Fol_pres (G : Prop) : PresAt (fun r => G → Fol r.L) := by
+  intro r n rest r1 ev1 res r2 evs hp _ hln hh hg
+  have h1 := loadNode_Fol r n (hp hg)
+  rw [hln] at h1
+  have h2 := handle_Fol r1 n rest res h1
+  rw [hh] at h2
+  exact h2
+
+theorem Fol_wake (G : Prop) : PresWakeAt (fun r => G → Fol r.L) := by
+  intro r l1 res n rest r2 evs hp _ hw hh hg
+  have h1 := wake_Fol r.L (hp hg)
+  rw [hw] at h1
+  have h2 := handle_Fol { r with L := l1 } n rest res h1
+  rw [hh] at h2
+  exact h2
+
+/-- the loader after `Unpause` (up to wherever the resumed executor gets) still has an empty path tracker -/
+theorem unpause_Fol (k : Nat) (r' : Requestor.State) (hrun : r'.phase = .running) (hk : r'.nBlocks = k) (h : Fol r'.L) :
+    Fol (PauseResume.unpause (stopForPause (hooked [k] r')).1).1.R.L := by
+  rw [unpause_at k r' hrun hk]
+  have h0 : Fol (unsent { r' with L := Loader.setOnline r'.L false }).L := by
+    show Fol (Loader.setOnline r'.L false)
+    exact setOnline_Fol _ _ h
+  exact drive_Fol _ _ h0
 
 end GS.C06
